@@ -261,6 +261,15 @@ func Exec(h *History) *Result {
 			return res
 		}
 		after()
+		// traffic between the operations (answers not compared here: the final probes are): a
+		// container that caches anything derived from its registration state at serving time must
+		// still answer like a fresh one afterwards
+		if len(h.Probes) > 0 && oi%3 != 2 {
+			for k := 0; k < 3; k++ {
+				p := h.Probes[(oi*3+k)%len(h.Probes)]
+				probe(c, []string{"dispatch", "serve"}[k%2], p)
+			}
+		}
 	}
 	res.RootsAt = nil
 	res.Content = ct
